@@ -116,12 +116,12 @@ fn one_run(ops: &[Value], tr: &mut Trace) -> (usize, String) {
                     }).unwrap_or((0, 0))
                 });
                 let r: Result<(), Error> = async {
-                    let (first, ts, minit, tag) = {
+                    let (first, ts, minit, tag, sq) = {
                         let rx = ex.recv().await?;
                         let p = rx.payload();
-                        (p.first().copied().unwrap_or(0), p.get(2).copied().unwrap_or(0), p.get(3).copied().unwrap_or(1) != 0, sent_on(p))
+                        (p.first().copied().unwrap_or(0), p.get(2).copied().unwrap_or(0), p.get(3).copied().unwrap_or(1) != 0, sent_on(p), p.get(1).copied().unwrap_or(0))
                     };
-                    events.borrow_mut().push(json!({"ev": "AppRx", "x": x, "role": "rsp", "minit": minit, "s": own_s, "ex": own_e, "ts": ts, "tag": if first == 200 { 900 } else { tag }, "t": sim::now_ms(), "seq": sim::next_seq()}));
+                    events.borrow_mut().push(json!({"ev": "AppRx", "x": x, "role": "rsp", "opening": true, "sq": sq, "minit": minit, "s": own_s, "ex": own_e, "ts": ts, "tag": if first == 200 { 900 } else { tag }, "t": sim::now_ms(), "seq": sim::next_seq()}));
                     match policy(first) {
                         "reply" => {
                             ex.send(MessageMeta::new(PROTO, 0x80, false), &[first]).await?;
@@ -140,7 +140,8 @@ fn one_run(ops: &[Value], tr: &mut Trace) -> (usize, String) {
                                         let tag = sent_on(rx.payload());
                                         let ts = rx.payload().get(2).copied().unwrap_or(0);
                                         let minit = rx.payload().get(3).copied().unwrap_or(1) != 0;
-                                        events.borrow_mut().push(json!({"ev": "AppRx", "x": x, "role": "rsp", "minit": minit, "s": own_s, "ex": own_e, "ts": ts, "tag": tag, "t": sim::now_ms(), "seq": sim::next_seq()}));
+                                        let sq = rx.payload().get(1).copied().unwrap_or(0);
+                                        events.borrow_mut().push(json!({"ev": "AppRx", "x": x, "role": "rsp", "opening": false, "sq": sq, "minit": minit, "s": own_s, "ex": own_e, "ts": ts, "tag": tag, "t": sim::now_ms(), "seq": sim::next_seq()}));
                                     }
                                     _ => break,
                                 }
@@ -184,7 +185,7 @@ fn one_run(ops: &[Value], tr: &mut Trace) -> (usize, String) {
                 match select(ex.recv(), &mut hold).await {
                     Either::First(Ok(rx)) => {
                         let p = rx.payload();
-                        events.borrow_mut().push(json!({"ev": "AppRx", "x": 9, "role": "ini", "minit": p.get(3).copied().unwrap_or(1) != 0, "s": ss, "ex": unmap(eid), "ts": p.get(2).copied().unwrap_or(0), "tag": sent_on(p), "t": sim::now_ms(), "seq": sim::next_seq()}));
+                        events.borrow_mut().push(json!({"ev": "AppRx", "x": 9, "role": "ini", "opening": false, "sq": p.get(1).copied().unwrap_or(0), "minit": p.get(3).copied().unwrap_or(1) != 0, "s": ss, "ex": unmap(eid), "ts": p.get(2).copied().unwrap_or(0), "tag": sent_on(p), "t": sim::now_ms(), "seq": sim::next_seq()}));
                     }
                     _ => break,
                 }
@@ -219,6 +220,8 @@ fn one_run(ops: &[Value], tr: &mut Trace) -> (usize, String) {
     let mut wait_until = 0u64;
     let mut probe_wait_set = false;
     let mut out: Vec<Value> = Vec::new();
+    // sequence number of a crafted message -> (session id on the wire, message counter)
+    let mut sent: std::collections::HashMap<u8, (u16, u32)> = Default::default();
 
     let end = drive(all.as_mut(), &net, &Limits { max_virtual_ms: 120_000, ..Default::default() }, |net| {
         // tap: what the device sent
@@ -251,7 +254,13 @@ fn one_run(ops: &[Value], tr: &mut Trace) -> (usize, String) {
         {
             let mut all: Vec<Value> = events.borrow_mut().drain(..).chain(out.drain(..)).collect();
             all.sort_by_key(|e| e["seq"].as_u64().unwrap_or(0));
-            for e in all {
+            for mut e in all {
+                if e["ev"] == "AppRx" {
+                    // how long the message had been in the device's receive buffer when the application got it
+                    let key = e["sq"].as_u64().and_then(|q| sent.get(&(q as u8)).copied());
+                    let read = key.and_then(|(sid, c)| net.borrow().reads.iter().find(|r| r.0 == 1 && r.2 == sid && r.3 == c).map(|r| r.1));
+                    e["waited"] = json!(read.map(|r| e["t"].as_u64().unwrap_or(0) as i64 - r as i64).unwrap_or(-1));
+                }
                 tr.ev(e);
             }
         }
@@ -288,6 +297,7 @@ fn one_run(ops: &[Value], tr: &mut Trace) -> (usize, String) {
                         let alive = b.with_state(|st| st.verif_snapshot().sessions.sessions.iter().any(|x| x.local_sess_id == 10 + ss as u16));
                         let kind = if alive { "data" } else { "dataNoSession" };
                         tr.ev(json!({"ev": "Inj", "kind": kind, "s": ss, "e": e, "init": init, "rel": rel, "t": sim::now_ms()}));
+                        sent.insert(seqno, (10 + ss as u16, ctr[ss as usize - 1]));
                         Step::Inject { src: 0, dst: 1, data: craft(ss, ctr[ss as usize - 1], 100 + e as u16, init, rel, PROTO, 1, &[e, seqno, ss, init as u8, e, 0]) }
                     }
                     "DevInit" => {
@@ -308,6 +318,7 @@ fn one_run(ops: &[Value], tr: &mut Trace) -> (usize, String) {
                         ctr[ss as usize - 1] += 1;
                         let alive = b.with_state(|st| st.verif_snapshot().sessions.sessions.iter().any(|x| x.local_sess_id == 10 + ss as u16));
                         tr.ev(json!({"ev": "Inj", "kind": if alive { "data" } else { "dataNoSession" }, "s": ss, "e": unmap(eid), "init": init, "rel": rel, "t": sim::now_ms()}));
+                        sent.insert(seqno, (10 + ss as u16, ctr[ss as usize - 1]));
                         let tagb = unmap(eid).to_le_bytes();
                         Step::Inject { src: 0, dst: 1, data: craft(ss, ctr[ss as usize - 1], eid, init, rel, PROTO, 1, &[1, seqno, ss, init as u8, tagb[0], tagb[1]]) }
                     }
